@@ -142,7 +142,33 @@ def generic_eq(eng, ts, a, b, st, where):
     return eng.call_body(f, [a, b], st, where).t
 
 
+class _ArrView:
+    """a fixed-size array seen as a slice (for Vec == [T; N] comparisons)"""
+    def __init__(self, arr):
+        self.slots = list(arr.fs)
+        self.n = len(arr.fs)
+        self.len = bv(self.n, 64)
+
+        class _T:
+            cap = self.n
+        self.ty = _T
+
+
+def _as_slice(x):
+    return _ArrView(x) if isinstance(x, St) else x
+
+
 def slice_eq(eng, ets, a, b, st, where):
+    a, b = _as_slice(a), _as_slice(b)
+    if a.ty.cap != b.ty.cap:
+        n = min(a.ty.cap, b.ty.cap)
+        r = a.len == b.len
+        for i in range(n):
+            if a.slots[i] is None or b.slots[i] is None:
+                continue
+            r = AND(r, OR(z3.ULE(a.len, i), generic_eq(eng, ets, a.slots[i], b.slots[i], st, where)))
+        # a longer side can only be equal if its length fits the shorter capacity
+        return AND(r, z3.ULE(a.len, n))
     # core/src/slice/cmp.rs SlicePartialEq::equal: `if self.len() != other.len() { return false; }` then element-wise `!=` -> false
     r = a.len == b.len
     for i in range(a.ty.cap):
